@@ -180,7 +180,7 @@ func interleaveOracle(ctx *common.Ctx) {
 // for every kind of context the standard library offers — with and without a cause, cancelled
 // by hand, by a timeout, by a deadline, by a parent, before and during the run.
 func realContextsOracle(ctx *common.Ctx) {
-	orc := ctx.NewOracle("real-contexts", "contexts of the standard library (WithCancel, WithCancelCause, WithTimeout, WithTimeoutCause, WithDeadline, WithDeadlineCause, a child of a cancelled parent, WithoutCancel of a cancelled parent) on endless and finite programs, cancelled before the first Next and after some outputs: the first value returned after the cancellation is observed is exactly ctx.Err() (errors.Is for both directions), then (nil,false) for ever; WithoutCancel is never cancelled; distinct = (context kind, program, moment)")
+	orc := ctx.NewOracle("real-contexts", "contexts of the standard library (WithCancel, WithCancelCause, WithTimeout, WithTimeoutCause, WithDeadline, WithDeadlineCause, a child of a cancelled parent, contexts with a FAR deadline cancelled by hand or through their parent, WithoutCancel of a cancelled parent) on endless and finite programs, cancelled before the first Next and after some outputs: the first value returned after the cancellation is observed is exactly ctx.Err() (errors.Is for both directions), then (nil,false) for ever; WithoutCancel is never cancelled; distinct = (context kind, program, moment)")
 	cause := fmt.Errorf("the caller's own cause")
 	type mk struct {
 		name string
@@ -208,12 +208,37 @@ func realContextsOracle(ctx *common.Ctx) {
 			c, f := context.WithTimeout(context.Background(), 0)
 			return c, func() { f() }
 		}},
+		// contexts that CARRY a deadline (far away) but are cancelled by hand or through their parent
+		{"WithTimeout(1h)-cancelled-by-hand", func() (context.Context, func()) {
+			c, f := context.WithTimeout(context.Background(), time.Hour)
+			return c, func() { f() }
+		}},
+		{"WithDeadline(far)-cancelled-by-hand", func() (context.Context, func()) {
+			c, f := context.WithDeadline(context.Background(), time.Now().Add(24*time.Hour))
+			return c, func() { f() }
+		}},
+		{"WithTimeout(1h)-parent-cancelled", func() (context.Context, func()) {
+			p, pf := context.WithCancel(context.Background())
+			c, f := context.WithTimeout(p, time.Hour)
+			return c, func() { pf(); _ = f }
+		}},
+		{"WithCancel-child-of-WithTimeout(1h)", func() (context.Context, func()) {
+			p, pf := context.WithTimeout(context.Background(), time.Hour)
+			c, f := context.WithCancel(p)
+			return c, func() { f(); _ = pf }
+		}},
+		{"WithValue-child-of-WithDeadline(far)-cancelled", func() (context.Context, func()) {
+			p, pf := context.WithDeadline(context.Background(), time.Now().Add(24*time.Hour))
+			type k struct{}
+			return context.WithValue(p, k{}, 1), func() { pf() }
+		}},
 		{"child-of-cancelled-with-cause", func() (context.Context, func()) {
 			p, pf := context.WithCancelCause(context.Background())
 			c, f := context.WithCancel(p)
 			return c, func() { pf(cause); _ = f }
 		}},
 	}
+	hung := 0
 	progs := []string{"repeat(1)", "range(infinite) | select(. < 0)", "def f: f; f", "range(5)", "[range(100)] | length", "reduce range(100000) as $i (0; . + 1)"}
 	n := 0
 	for _, k := range kinds {
@@ -232,10 +257,17 @@ func realContextsOracle(ctx *common.Ctx) {
 				}
 				orc.Cases++
 				n++
-				func() {
+				if hung >= 3 {
+					continue // three runs already ignore their context and keep spinning
+				}
+				var vio []func()
+				violate := func(key, what string, rp map[string]any) { vio = append(vio, func() { ctx.Violate(key, what, rp) }) }
+				done := make(chan struct{})
+				go func() {
+					defer close(done)
 					defer func() {
 						if rec := recover(); rec != nil {
-							ctx.Violate("real-context-panic:"+k.name+":"+src, fmt.Sprintf("panic with a %s context: %v", k.name, rec), map[string]any{"context": k.name, "query": src})
+							violate("real-context-panic:"+k.name+":"+src, fmt.Sprintf("panic with a %s context: %v", k.name, rec), map[string]any{"context": k.name, "query": src})
 						}
 					}()
 					cx, cancel := k.make()
@@ -266,22 +298,137 @@ func realContextsOracle(ctx *common.Ctx) {
 					}
 					if !ok {
 						if !finished {
-							ctx.Violate("real-context-ignored:"+k.name+":"+src, fmt.Sprintf("a cancelled %s context is not observed by `%s` within 2,000,000 Next calls", k.name, src), map[string]any{"context": k.name, "query": src, "moment": moment})
+							violate("real-context-ignored:"+k.name+":"+src, fmt.Sprintf("a cancelled %s context is not observed by `%s` within 2,000,000 Next calls", k.name, src), map[string]any{"context": k.name, "query": src, "moment": moment})
 						}
 						return // a finite program may finish before the poll sees the cancellation
 					}
 					e := got.(error)
 					if e != cx.Err() {
-						ctx.Violate("real-context-error:"+k.name+":"+src, fmt.Sprintf("after a %s context was cancelled `%s` returns the error %q, ctx.Err() is %q", k.name, src, e.Error(), cx.Err().Error()),
+						violate("real-context-error:"+k.name+":"+src, fmt.Sprintf("after a %s context was cancelled `%s` returns the error %q, ctx.Err() is %q", k.name, src, e.Error(), cx.Err().Error()),
 							map[string]any{"context": k.name, "query": src, "moment": moment, "observed": e.Error(), "expected": cx.Err().Error(), "cause": fmt.Sprint(context.Cause(cx))})
 					}
 					for i := 0; i < 3; i++ {
 						if v, more := it.Next(); more {
-							ctx.Violate("real-context-not-terminal:"+k.name+":"+src, fmt.Sprintf("after the context error `%s` returned another value: %v", src, v), map[string]any{"context": k.name, "query": src})
+							violate("real-context-not-terminal:"+k.name+":"+src, fmt.Sprintf("after the context error `%s` returned another value: %v", src, v), map[string]any{"context": k.name, "query": src})
 							break
 						}
 					}
 				}()
+				select {
+				case <-done:
+					for _, f := range vio {
+						f()
+					}
+				case <-time.After(20 * time.Second):
+					hung++
+					ctx.Violate("real-context-ignored:"+k.name+":"+src, fmt.Sprintf("a cancelled %s context is not observed by `%s`: the call of Next has not returned 20 s after the cancellation", k.name, src),
+						map[string]any{"context": k.name, "query": src, "moment": moment, "history": "ctx := the named context; it := code.RunWithContext(ctx, nil); `moment` calls of Next; cancel; Next"})
+				}
+			}
+		}
+	}
+	orc.Distinct = n
+}
+
+// customIterErrorsOracle: iterators of custom functions that report a failure the documented way
+// (NewIter(err)), alone or after values, with and without a pending fork: the error is yielded
+// once, and the iterator can be advanced afterwards without a panic, like any error value.
+func customIterErrorsOracle(ctx *common.Ctx) {
+	orc := ctx.NewOracle("custom-iterator-errors", "WithIterFunction callbacks returning NewIter(err), NewIter(v, err), NewIter(err, v), NewIter() and a hand-written Iter, called where no fork is pending (`f`, `0 | f`, `path(f)`, last element of `.[] | f`) and where one is (`f, 1`, `.[] | f`, `try f catch .`, `[f]?`, `first(f)`): the history is advanced 4 calls past its first error value — no panic, up to and including the first error value the outputs equal those of the equivalent jq definition, and after (nil,false) it stays terminal; distinct = (callback, context)")
+	boom := fmt.Errorf("boom")
+	type cb struct {
+		name string
+		f    func(any, []any) gojq.Iter
+		def  string
+	}
+	cbs := []cb{
+		{"NewIter(err)", func(any, []any) gojq.Iter { return gojq.NewIter(boom) }, `def f: error("boom");`},
+		{"NewIter(v,err)", func(v any, _ []any) gojq.Iter { return gojq.NewIter[any](v, boom) }, `def f: ., error("boom");`},
+		{"NewIter(err,v)", func(v any, _ []any) gojq.Iter { return gojq.NewIter[any](boom, v) }, `def f: error("boom"), .;`},
+		{"NewIter()", func(any, []any) gojq.Iter { return gojq.NewIter[any]() }, `def f: empty;`},
+		{"NewIter(v)", func(v any, _ []any) gojq.Iter { return gojq.NewIter(v) }, `def f: .;`},
+	}
+	ctxs := []string{"f", "0 | f", "path(f)", ".[] | f", "f, 1", "try f catch .", "[f]?", "first(f)", "[.[] | f]", "f | f", "label $l | f, break $l", ". as $x | f", "reduce f as $x (0; . + 1)", "[limit(2; f, f)]", "f?", "(f | error)?", "[.[] | try f catch 7]"}
+	ins := []any{nil, []any{1, 2}, []any{}}
+	n := 0
+	collect := func(code *gojq.Code, in any) (outs []string, panicked string) {
+		defer func() {
+			if rec := recover(); rec != nil {
+				panicked = fmt.Sprint(rec)
+			}
+		}()
+		it := code.Run(common.DeepCopy(in))
+		done := 0
+		for i := 0; i < 60 && done < 3; i++ {
+			v, ok := it.Next()
+			if !ok {
+				outs = append(outs, "END")
+				done++
+				continue
+			}
+			if done > 0 {
+				outs = append(outs, "REVIVED:"+ilItem(v))
+				continue
+			}
+			if e, isErr := v.(error); isErr {
+				outs = append(outs, "ERR:"+strings.TrimPrefix(e.Error(), "error: "))
+			} else {
+				outs = append(outs, common.Canon(v))
+			}
+		}
+		return outs, ""
+	}
+	for _, c := range cbs {
+		for _, cx := range ctxs {
+			q1, err := gojq.Parse(cx)
+			if err != nil {
+				ctx.Errorf("custom-iterator-errors: parse %q: %v", cx, err)
+				return
+			}
+			q2, err := gojq.Parse(c.def + " " + cx)
+			if err != nil {
+				ctx.Errorf("custom-iterator-errors: parse %q: %v", c.def+cx, err)
+				return
+			}
+			code1, err1 := gojq.Compile(q1, gojq.WithIterFunction("f", 0, 0, c.f))
+			code2, err2 := gojq.Compile(q2)
+			if err1 != nil || err2 != nil {
+				continue
+			}
+			for _, in := range ins {
+				orc.Cases++
+				n++
+				got, p := collect(code1, in)
+				want, _ := collect(code2, in)
+				rp := map[string]any{"callback": c.name, "query": cx, "input": common.Canon(in), "definition": c.def, "history": "it := code.Run(input); call it.Next() until it has returned false three times (at most 60 calls)"}
+				if p != "" {
+					rp["panic"] = p
+					rp["outputs_before"] = got
+					ctx.Violate("custom-iter-panic:"+c.name+":"+cx, fmt.Sprintf("`%s` with f = %s on %s: Next panics after %v: %s", cx, c.name, common.Canon(in), got, p), rp)
+					continue
+				}
+				// what follows an uncaught error is only required not to panic and to stay terminal
+				// once ended; the outputs are compared up to and including the first error value
+				cut := func(xs []string) []string {
+					for i, x := range xs {
+						if strings.HasPrefix(x, "ERR:") {
+							return xs[:i+1]
+						}
+					}
+					return xs
+				}
+				for _, x := range got {
+					if strings.HasPrefix(x, "REVIVED:") {
+						rp["observed"] = got
+						ctx.Violate("custom-iter-revived:"+c.name+":"+cx, fmt.Sprintf("`%s` with f = %s on %s: a value after Next had returned false: %v", cx, c.name, common.Canon(in), got), rp)
+						break
+					}
+				}
+				got, want = cut(got), cut(want)
+				if strings.Join(got, " ; ") != strings.Join(want, " ; ") {
+					rp["observed"], rp["expected"] = got, want
+					ctx.Violate("custom-iter-differs:"+c.name+":"+cx, fmt.Sprintf("`%s` with f = %s on %s yields %v, with `%s` it yields %v", cx, c.name, common.Canon(in), got, c.def, want), rp)
+				}
 			}
 		}
 	}
